@@ -45,6 +45,7 @@ def configs_for(tier):
 def run(chk, tier):
     sf = S.Src()
     classify_sites(chk, sf)
+    derive_crate_sites(chk, sf)
     prelude(chk, sf)
     cargo_features(chk)
     confs = configs_for(tier)
@@ -328,6 +329,26 @@ def classify_sites(chk, sf):
                     chk.fail("R15.1", "cfg_if:%s:%s" % (f["file"], m["line"]), where, "unclassified cfg_if! block", None)
             elif last == "cfg":
                 chk.fail("R15.1", "cfg-macro:%s" % f["file"], "src/%s:%s" % (f["file"], m["line"]), "cfg!(%s) makes a value feature-dependent" % m["tokens"], None)
+
+
+def derive_crate_sites(chk, sf):
+    chk.rule("R15.1d", "the derive crate has no feature-conditional code at all: its (cargo-unified, independently selected) features must not decide what is "
+             "generated -- no #[cfg(feature = ..)] / #[cfg_attr(feature = ..)] item and no cfg!(feature = ..) expression in derive/src")
+    n = 0
+    for f in sf.files("derive"):
+        n += 1
+        for x in f.get("all_cfg", []):
+            a = x["attr"]
+            feats = S.pred_features(a["pred"]) if "pred" in a else set()
+            pred = S.pred_str(a["pred"]) if "pred" in a else "?"
+            if feats:
+                chk.fail("R15.1d", "derive-cfg:%s:%s" % (f["file"], pred.replace(" ", "")), "derive/src/%s:%s" % (f["file"], a["line"]),
+                         "feature-conditional code in the derive crate (cfg(%s)): the generated metadata would depend on how cargo resolved scale-info-derive's features" % pred, None)
+        for m in f.get("macros", []):
+            if m["path"].split("::")[-1] == "cfg" and "feature" in m.get("tokens", ""):
+                chk.fail("R15.1d", "derive-cfg-macro:%s" % f["file"], "derive/src/%s:%s" % (f["file"], m["line"]),
+                         "cfg!(%s) in the derive crate makes the expansion depend on the derive crate's own features" % m["tokens"], None)
+    chk.expect(n >= 4, "R15.1d", "derive-crate:scanned", None, "%d source files of the derive crate scanned for feature conditions" % n, None)
 
 
 def _split_top(tokens):
